@@ -459,6 +459,10 @@ func EqualTypedValues(v1, v2 *sdcpb.TypedValue) bool {
 func decimal64Equal(d1, d2 *sdcpb.Decimal64) bool {
 	b1, b2 := big.NewInt(d1.GetDigits()), big.NewInt(d2.GetDigits())
 	p1, p2 := d1.GetPrecision(), d2.GetPrecision()
+	// a decimal64 has at most 18 fraction digits, values beyond that are no numbers to be scaled
+	if p1 > 18 || p2 > 18 {
+		return p1 == p2 && d1.GetDigits() == d2.GetDigits()
+	}
 	ten := big.NewInt(10)
 	switch {
 	case p1 < p2:
